@@ -129,16 +129,19 @@ fn run(rng: &mut Rng, idx: u64, tier: Tier) -> CaseOut {
     }
     let net = crate::net::gen_net(rng, &nopts);
     let mut f = gen_formula(rng, &fopts, &net.names);
-    if extended && rng.chance(1, 3) {
+    if extended && rng.chance(1, 2) {
         // a restricted quantifier whose body has a part that does not mention the variable (a wild-card, a pattern,
         // a proposition): only the cut to the colour's own slice of the domain keeps the colours apart
         let prop = F::Prop(rng.pick(&net.names).clone());
-        let part = match rng.below(4) {
+        let which_part = rng.below(5);
+        let part = match which_part {
             0 => F::Wild("p".to_string()),
             1 => hyb(Hyb::Bind, "y", None, un(Un::AX, var("y"))),
             2 => prop.clone(),
+            3 => hyb(Hyb::Bind, "y", None, un(Un::AG, un(Un::EF, var("y")))),
             _ => un(Un::EF, F::Wild("p".to_string())),
         };
+        let closed_part = if which_part == 1 || which_part == 3 { Some(part.clone()) } else { None };
         let with_var = match rng.below(3) {
             0 => un(Un::EX, var("x")),
             1 => hyb(Hyb::Jump, "x", None, prop),
@@ -147,7 +150,26 @@ fn run(rng: &mut Rng, idx: u64, tier: Tier) -> CaseOut {
         let body = if rng.chance(1, 4) { part } else { bin(*rng.pick(&[Bin::Or, Bin::And]), part, with_var) };
         let q = *rng.pick(&[Hyb::Bind, Hyb::Exists, Hyb::Forall]);
         let crafted = F::Hyb(q, "x".to_string(), Some(rng.pick(&["d", "p"]).to_string()), Box::new(body));
-        f = if rng.coin() { crafted } else { bin(*rng.pick(&[Bin::Or, Bin::And]), crafted, f) };
+        f = match closed_part {
+            // the same closed part once more OUTSIDE the restricted scope (before or after it): what is computed for it inside
+            // the scope covers only the colours whose slice of the domain is non-empty
+            Some(cp) if rng.chance(2, 3) => {
+                let outside = match rng.below(3) {
+                    0 => cp,
+                    1 => un(Un::EF, cp),
+                    _ => hyb(Hyb::Exists, "x", None, hyb(Hyb::Jump, "x", None, cp)),
+                };
+                let op = *rng.pick(&[Bin::Or, Bin::And]);
+                if rng.chance(2, 3) { bin(op, crafted, outside) } else { bin(op, outside, crafted) }
+            }
+            _ => {
+                if rng.coin() {
+                    crafted
+                } else {
+                    bin(*rng.pick(&[Bin::Or, Bin::And]), crafted, f)
+                }
+            }
+        };
     }
     let k = f.quant_depth() as u16;
     let world = World::from_net(net, rng, 10, 128);
